@@ -31,7 +31,7 @@ MM_SKIP = {'transfer.mm', 'transfer5000.mm', 'transfer-largest-slice.mm', 'disjo
 def run_worker(args, hashseed, timeout=1800):
     env = dict(os.environ)
     env['PYTHONHASHSEED'] = str(hashseed)
-    r = subprocess.run([sys.executable, '-m', 'pi2v.checks.c18_worker', *map(str, args)], env=env, capture_output=True, text=True, timeout=timeout, cwd='/verif')
+    r = subprocess.run([sys.executable, '-m', 'pi2v.checks.c18_worker', *map(str, args)], env=env, capture_output=True, text=True, timeout=timeout, cwd=str(Path(__file__).resolve().parents[2]))
     if r.returncode != 0:
         raise RuntimeError(f'worker failed rc={r.returncode}: {r.stderr[-600:]}')
     return json.loads(r.stdout.strip().splitlines()[-1])
